@@ -524,7 +524,7 @@ func markerProp(t *rapid.T) {
 // NotEqualPostRelease: the PyPI constraint "!=V" is built as [0:V) plus (V:inf]
 // and the matcher's ">V does not match post-releases of V" heuristic then also
 // hides V.postN from "!=V"; packaging says V.postN != V is true.
-var notEqualPostAtom = regexp.MustCompile(`!=\s*['"][^'"]*\.post[0-9]*['"]|['"][^'"]*\.post[0-9]*['"]\s*!=`)
+var notEqualPostAtom = regexp.MustCompile(`(?i)!=\s*['"][^'"]*\.post[0-9]*['"]|['"][^'"]*\.post[0-9]*['"]\s*!=`)
 
 // CompatibleReleaseVPrefix: packaging evaluates X ~= "v3.8" to false for every
 // X: the specifier is accepted, but the prefix match it expands to ("== v3.*")
